@@ -160,3 +160,143 @@ class ApproxWasserstein(LotBase):
 ALL = {c.name: c for c in [WassersteinExact, WassersteinSinkhornMethod, WassersteinHeuristic, WassersteinLil, WassersteinGenerator,
                            Sinkhorn, ApproxWasserstein]}
 ROWWISE = list(ALL)
+
+
+# ---------------------------------------------------------------------------------- C08: encodings of measures
+NP = 4          # support points of Measure.tla
+COPIES = 5      # a point can be listed up to MaxLen times (splits)
+
+
+class MeasureMixin:
+    """pool items are encodings <<point, weight>>* emitted by Measure.tla (cfg['_encodings'])"""
+
+    def make_pool(self):
+        r = np.random.RandomState(101)
+        self.PV = r.normal(size=(NP, D)) + np.linspace(1.5, -0.5, D)       # generic vectors: unique optimal plans a.s.
+        self.P = self.PV
+        return [list(map(tuple, e)) for e in self.cfg["_encodings"]]
+
+    def clean_cfg(self):
+        return {k: v for k, v in self.cfg.items() if not k.startswith("_")}
+
+
+class MeasureLil(MeasureMixin, WassersteinLil):
+    name = "Measure[LOT_exact,lil]"
+    configs = [dict(), dict(metric="euclidean"), dict(memory_size="1k")]
+    knobs = [dict(memory_size="1k"), dict(memory_size="2G"), dict(memory_size="3k")]
+
+    def make(self):
+        cfg = dict(n_components=2, reference_size=3, random_state=self.seed % 1000, input_method="lil")
+        cfg.update(self.clean_cfg())
+        return _cls("vectorizers.linear_optimal_transport", "WassersteinVectorizer")(**cfg)
+
+    def batch(self, ids, fitting=False):
+        X, vecs = [], []
+        for i in ids:
+            e = self.pool[i - 1]
+            X.append(np.array([float(w) for _, w in e], dtype=np.float64))
+            vecs.append(np.ascontiguousarray(self.PV[[p - 1 for p, _ in e]]))
+        return X, {"vectors": vecs}
+
+
+class MeasureGen(MeasureLil):
+    name = "Measure[LOT_exact,generator]"
+    configs = [dict(), dict(memory_size="1k")]
+    knobs = [dict(memory_size="1k"), dict(memory_size="2G")]
+    no_arg_snapshot = True
+
+    def make(self):
+        cfg = dict(n_components=2, random_state=self.seed % 1000, input_method="generator", generator_vector_dim=D,
+                   generator_n_distributions=self._n)
+        cfg.update(self.clean_cfg())
+        return _cls("vectorizers.linear_optimal_transport", "WassersteinVectorizer")(**cfg)
+
+    def batch(self, ids, fitting=False):
+        X, kw = MeasureLil.batch(self, ids, fitting)
+        self._n = len(X)
+        out = {"vectors": (v for v in kw["vectors"])}
+        if fitting:
+            r = np.random.RandomState(5)
+            out["reference_vectors"] = self.PV.mean(axis=0) + r.normal(scale=0.3, size=(3, D))
+        return (x for x in X), out
+
+
+class MeasureSparse(MeasureMixin, LotBase):
+    """sparse-matrix carrier: column (p, k) holds the k-th listed occurrence of point p; zero-weight entries are stored
+    explicitly; listing order (Swap) has no counterpart in this format"""
+    name = "Measure[LOT_exact,spmatrix]"
+    configs = [dict(), dict(metric="euclidean", memory_size="1k")]
+    knobs = [dict(memory_size="1k"), dict(memory_size="2G")]
+    method = "LOT_exact"
+
+    def make(self):
+        cfg = dict(n_components=2, reference_size=3, random_state=self.seed % 1000, method=self.method)
+        cfg.update(self.clean_cfg())
+        if self.method == "HeuristicLinearAlgebra":
+            cfg.pop("reference_size")
+        return _cls("vectorizers.linear_optimal_transport", "WassersteinVectorizer")(**cfg)
+
+    def matrix(self, ids):
+        data, indices, indptr = [], [], [0]
+        for i in ids:
+            seen = {}
+            row = []
+            for p, w in self.pool[i - 1]:
+                k = seen.get(p, 0)
+                seen[p] = k + 1
+                row.append(((p - 1) * COPIES + k, float(w)))
+            for c, w in sorted(row):
+                indices.append(c)
+                data.append(w)
+            indptr.append(len(indices))
+        return sp.csr_matrix((np.array(data), np.array(indices, dtype=np.int32), np.array(indptr, dtype=np.int32)),
+                             shape=(len(ids), NP * COPIES))
+
+    def batch(self, ids, fitting=False):
+        return self.matrix(ids), {"vectors": np.repeat(self.PV, COPIES, axis=0)}
+
+
+class MeasureSinkhornMethod(MeasureSparse):
+    name = "Measure[LOT_sinkhorn,spmatrix]"
+    method = "LOT_sinkhorn"
+    rtol, atol = 1e-5, 1e-6
+    configs = [dict(reference_size=4), dict(metric="euclidean", reference_size=3)]
+    knobs = [dict(sinkhorn_chunk_size=1), dict(sinkhorn_chunk_size=2), dict(memory_size="1k")]
+
+
+class MeasureHeuristic(MeasureSparse):
+    name = "Measure[HeuristicLinearAlgebra]"
+    method = "HeuristicLinearAlgebra"
+    # only the default power 1.0 treats rows as distributions (documented); other powers make the scale matter on purpose
+    configs = [dict(), dict(n_svd_iter=5)]
+    knobs = []
+
+
+class MeasureSinkhornVec(MeasureSparse):
+    name = "Measure[SinkhornVectorizer]"
+    rtol, atol = 1e-5, 1e-6
+    configs = [dict(reference_size=4), dict(metric="euclidean")]
+    knobs = [dict(chunk_size=1), dict(chunk_size=2), dict(memory_size="1k")]
+
+    def make(self):
+        cfg = dict(n_components=2, reference_size=3, random_state=self.seed % 1000)
+        cfg.update(self.clean_cfg())
+        return _cls("vectorizers.linear_optimal_transport", "SinkhornVectorizer")(**cfg)
+
+
+class MeasureApprox(MeasureSparse):
+    name = "Measure[ApproximateWassersteinVectorizer]"
+    configs = [dict(), dict(n_svd_iter=5)]       # normalization_power != 1 is documented as scale dependent
+    knobs = []
+    transform_kwargs = False
+
+    def make(self):
+        cfg = dict(n_components=2, random_state=self.seed % 1000)
+        cfg.update(self.clean_cfg())
+        return _cls("vectorizers.linear_optimal_transport", "ApproximateWassersteinVectorizer")(**cfg)
+
+
+MEASURE = {c.name: c for c in [MeasureLil, MeasureGen, MeasureSparse, MeasureSinkhornMethod, MeasureHeuristic, MeasureSinkhornVec,
+                               MeasureApprox]}
+ALL.update(MEASURE)
+ROWWISE = [n for n in ROWWISE if not n.startswith("Measure")]
